@@ -24,13 +24,15 @@ import (
 )
 
 type opSpec struct {
-	Kind    string `json:"kind"`    // store delete move | merge cleave chidx | post | newversion branch mergeparents
-	Variant int    `json:"variant"` // >0: the request's own block/label (annotation), branch name or child kind (datastore)
+	Kind    string `json:"kind"`             // store delete move | merge cleave chidx | post postreplace njdelete | newversion branch mergeparents
+	Variant int    `json:"variant"`          // >0: the request's own block/label (annotation), branch name or child kind (datastore)
+	Flavor  string `json:"flavor,omitempty"` // neuronjson: "nomem" = on the open head of a named branch, which has no in-memory db
 }
 
 type schedReq struct {
 	Site    string   `json:"site"`
 	Variant int      `json:"variant"`
+	Replace bool     `json:"replace,omitempty"`
 	Yields  []string `json:"yields"`
 	Desc    string   `json:"request"`
 	run     func() bool
@@ -46,6 +48,8 @@ type schedView struct {
 
 type schedEpisode struct {
 	reqs   []schedReq
+	init   []view                     // what the locations held before the requests (ids >= 100: seeded content)
+	serial func(acked []int) [][]view // non-commuting requests: the states of the sequential orders of the acknowledged ones
 	views  []schedView
 	extra  func() int
 	finish func()
@@ -61,6 +65,7 @@ var siteYields = map[string][]string{
 	"neuronjson.storeAndUpdate": {"neuronjson.storeAndUpdate.read", "neuronjson.storeAndUpdate.store"},
 	"datastore.newVersion":      {"datastore.newVersion.append"},
 	"datastore.merge":           {},
+	"neuronjson.DeleteData":     {},
 }
 
 // loadSiteYields replaces the built-in lists by the yield points the translator found in the tree
@@ -97,13 +102,13 @@ func loadSiteYields() {
 var kindSite = map[string]string{
 	"store": "annotation.StoreElements", "delete": "annotation.DeleteElement", "move": "annotation.MoveElement",
 	"merge": "labelmap.MergeLabels", "cleave": "labelmap.CleaveLabel", "chidx": "labelmap.ChangeLabelIndex",
-	"post":       "neuronjson.storeAndUpdate",
+	"post": "neuronjson.storeAndUpdate", "postreplace": "neuronjson.storeAndUpdate", "njdelete": "neuronjson.DeleteData",
 	"newversion": "datastore.newVersion", "branch": "datastore.newVersion", "mergeparents": "datastore.merge",
 }
 
 var kindFamily = map[string]string{
 	"store": "ann", "delete": "ann", "move": "ann", "merge": "lm", "cleave": "lm", "chidx": "lm",
-	"post": "nj", "newversion": "dag", "branch": "dag", "mergeparents": "dag",
+	"post": "nj", "postreplace": "nj", "njdelete": "nj", "newversion": "dag", "branch": "dag", "mergeparents": "dag",
 }
 
 func idsWhere(n int, f func(i int) bool) []int {
@@ -136,7 +141,7 @@ func buildEpisode(w *world, ops []opSpec) schedEpisode {
 
 func mkReq(op opSpec, desc string, run func() bool) schedReq {
 	site := kindSite[op.Kind]
-	return schedReq{Site: site, Variant: op.Variant, Yields: siteYields[site], Desc: desc, run: run}
+	return schedReq{Site: site, Variant: op.Variant, Replace: op.Kind == "postreplace", Yields: siteYields[site], Desc: desc, run: run}
 }
 
 // ------------------------------------------------------------------ annotation
@@ -269,7 +274,7 @@ func lmEpisode(w *world, ops []opSpec) schedEpisode {
 		}},
 		{Name: "mapping", Primary: false, Relevant: all, read: func() []int {
 			return idsWhere(n, func(i int) bool {
-				l := lmLabelAt(w, int(t)+i-1)
+				l := lmLabelAt(w, w.colOf(t+uint64(i)))
 				if ops[i-1].Kind == "merge" {
 					return l == t
 				}
@@ -321,22 +326,112 @@ func chidxEpisode(w *world, ops []opSpec) schedEpisode {
 
 // ------------------------------------------------------------------ neuronjson
 
+// permutations of xs
+func perms(xs []int) [][]int {
+	if len(xs) <= 1 {
+		return [][]int{append([]int{}, xs...)}
+	}
+	var out [][]int
+	for i := range xs {
+		rest := append(append([]int{}, xs[:i]...), xs[i+1:]...)
+		for _, p := range perms(rest) {
+			out = append(out, append([]int{xs[i]}, p...))
+		}
+	}
+	return out
+}
+
+// neuronjson: partial posts, replacing posts and deletes of one annotation that already holds a
+// field (id 100).  A view is the set of field ids the annotation shows: 100 for the seeded field,
+// i for the field request i posts.  On the master head the annotation is kept in memory too; on the
+// open head of a named branch ("nomem") only the store copy exists.
 func njEpisode(w *world, ops []opSpec) schedEpisode {
 	n := len(ops)
 	body := w.njNext
 	w.njNext++
+	nomem := ops[0].Flavor == "nomem"
 	head := w.njHead
+	if nomem {
+		head = w.njDev
+	}
+	okResp(dv.Post(nodeURL(head, "nj", fmt.Sprintf("key/%d?u=seed", body)), []byte(fmt.Sprintf(`{"bodyid": %d, "f100": 100}`, body))), "neuronjson seed")
 	var ep schedEpisode
+	where := "master head, in-memory db"
+	if nomem {
+		where = "open head of branch dev, no in-memory db"
+	}
 	for i := 1; i <= n; i++ {
 		i := i
-		ep.reqs = append(ep.reqs, mkReq(ops[i-1], fmt.Sprintf(`POST nj/key/%d?u=user%d {"bodyid": %d, "f%d": %d}`, body, i, body, i, i), func() bool {
-			return dv.Post(nodeURL(head, "nj", fmt.Sprintf("key/%d?u=user%d", body, i)), []byte(fmt.Sprintf(`{"bodyid": %d, "f%d": %d}`, body, i, i))).Status == 200
-		}))
+		switch ops[i-1].Kind {
+		case "post", "postreplace":
+			q := ""
+			if ops[i-1].Kind == "postreplace" {
+				q = "&replace=true"
+			}
+			ep.reqs = append(ep.reqs, mkReq(ops[i-1], fmt.Sprintf(`POST nj/key/%d?u=user%d%s {"bodyid": %d, "f%d": %d} (%s; the annotation holds f100)`, body, i, q, body, i, i, where), func() bool {
+				return dv.Post(nodeURL(head, "nj", fmt.Sprintf("key/%d?u=user%d%s", body, i, q)), []byte(fmt.Sprintf(`{"bodyid": %d, "f%d": %d}`, body, i, i))).Status == 200
+			}))
+		case "njdelete":
+			ep.reqs = append(ep.reqs, mkReq(ops[i-1], fmt.Sprintf(`DELETE nj/key/%d?u=user%d (%s)`, body, i, where), func() bool {
+				return dv.Delete(nodeURL(head, "nj", fmt.Sprintf("key/%d?u=user%d", body, i))).Status == 200
+			}))
+		}
 	}
-	all := idsWhere(n, func(int) bool { return true })
+	ids := func(f map[string]bool) []int {
+		var out []int
+		for i := 1; i <= n; i++ {
+			if f[fmt.Sprintf("f%d", i)] {
+				out = append(out, i)
+			}
+		}
+		if f["f100"] {
+			out = append(out, 100)
+		}
+		return out
+	}
+	ep.init = []view{{Name: "store", IDs: []int{100}}, {Name: "mem", IDs: []int{100}}}
+	// the documented meaning of the requests, applied in every order of the acknowledged ones
+	ep.serial = func(acked []int) [][]view {
+		var alts [][]view
+		for _, order := range perms(acked) {
+			cur := map[int]bool{100: true}
+			for _, i := range order {
+				switch ops[i-1].Kind {
+				case "post":
+					cur[i] = true
+				case "postreplace":
+					cur = map[int]bool{i: true}
+				case "njdelete":
+					cur = map[int]bool{}
+				}
+			}
+			var fs []int
+			for i := 1; i <= n; i++ {
+				if cur[i] {
+					fs = append(fs, i)
+				}
+			}
+			if cur[100] {
+				fs = append(fs, 100)
+			}
+			alt := []view{{Name: "store", IDs: fs}}
+			if !nomem {
+				alt = append(alt, view{Name: "mem", IDs: fs})
+			}
+			alts = append(alts, alt)
+		}
+		return alts
+	}
 	var memF, storeF map[string]bool
+	if nomem {
+		ep.views = []schedView{{Name: "store", Primary: true, read: func() []int {
+			storeF, _ = njFields(head, body)
+			return ids(storeF)
+		}}}
+		return ep
+	}
 	ep.views = []schedView{
-		{Name: "store", Primary: true, Relevant: all, read: func() []int {
+		{Name: "store", Primary: true, read: func() []int {
 			// memory copy first (HEAD), then commit + newversion: the committed parent is read from the store
 			memF, _ = njFields(head, body)
 			okResp(dv.Commit(head), "commit neuronjson head")
@@ -344,11 +439,9 @@ func njEpisode(w *world, ops []opSpec) schedEpisode {
 			okResp(r, "newversion neuronjson head")
 			w.njHead = child
 			storeF, _ = njFields(head, body)
-			return idsWhere(n, func(i int) bool { return storeF[fmt.Sprintf("f%d", i)] })
+			return ids(storeF)
 		}},
-		{Name: "mem", Primary: false, Relevant: all, read: func() []int {
-			return idsWhere(n, func(i int) bool { return memF[fmt.Sprintf("f%d", i)] })
-		}},
+		{Name: "mem", Primary: false, read: func() []int { return ids(memF) }},
 	}
 	return ep
 }
@@ -463,7 +556,8 @@ type pairDef struct {
 	tier int // 0: quick and thorough, 1: thorough only
 }
 
-func o(kind string, variant int) opSpec { return opSpec{kind, variant} }
+func o(kind string, variant int) opSpec { return opSpec{Kind: kind, Variant: variant} }
+func on(kind string) opSpec             { return opSpec{Kind: kind, Flavor: "nomem"} }
 
 func allPairs() []pairDef {
 	var ps []pairDef
@@ -480,6 +574,12 @@ func allPairs() []pairDef {
 		pairDef{ops: []opSpec{o("merge", 0), o("cleave", 0)}},
 		pairDef{ops: []opSpec{o("chidx", 0), o("chidx", 0)}},
 		pairDef{ops: []opSpec{o("post", 0), o("post", 0)}},
+		pairDef{ops: []opSpec{o("post", 0), o("njdelete", 0)}},
+		pairDef{ops: []opSpec{o("post", 0), o("postreplace", 0)}},
+		pairDef{ops: []opSpec{on("post"), on("post")}},
+		pairDef{ops: []opSpec{on("post"), on("njdelete")}},
+		pairDef{ops: []opSpec{on("post"), on("postreplace")}},
+		pairDef{ops: []opSpec{on("postreplace"), on("njdelete")}},
 		pairDef{ops: []opSpec{o("newversion", 0), o("newversion", 0)}},
 		pairDef{ops: []opSpec{o("newversion", 0), o("branch", 1)}},
 		pairDef{ops: []opSpec{o("branch", 1), o("branch", 1)}},
@@ -504,6 +604,9 @@ func pairName(ops []opSpec) string {
 		s := op.Kind
 		if op.Variant > 0 {
 			s += strings.Repeat("'", op.Variant)
+		}
+		if op.Flavor != "" {
+			s += "@" + op.Flavor
 		}
 		ss = append(ss, s)
 	}
